@@ -693,7 +693,10 @@ impl Xot {
                         span_info.extend_text_span(node_id.into(), text.into());
                     }
                     Cdata { text, span: _ } => {
-                        let node_id = builder.cdata_text(text.as_str(), self)?;
+                        // line ends are normalized inside CDATA sections too
+                        // https://www.w3.org/TR/xml/#sec-line-ends
+                        let content = text.as_str().replace("\r\n", "\n").replace('\r', "\n");
+                        let node_id = builder.cdata_text(&content, self)?;
                         span_info.extend_text_span(node_id.into(), text.into());
                     }
                     ElementStart {
